@@ -238,7 +238,8 @@ class CuboidalDescription(ShapeDescriptionBase):
     def __init__(self):
         super().__init__()
         self.eqRadiusFactorMin = self._eqRadius(1)
-        self.kineticFactorMin = self.kineticFactor(1.0001)
+        #Limit of _kineticFactor for ar -> 1 (sqrt(ar^2-1)/log(...) -> 1/2), the formula itself is 0/0 at ar = 1
+        self.kineticFactorMin = 0.1 + 1.736 / 2
         self.thermoFactorMin = self._thermoFactor(1)
 
     def _eqRadius(self, ar):
